@@ -946,6 +946,8 @@ class RemoterTls(Remoter):
             raise  # unexpected Exception so bubble up
 
         self.connected = True  # handshake completed successfully
+        if self.refreshable:  # handshake traffic is activity so idle tymeout starts now
+            self.refresh()
 
 
     def receive(self):
